@@ -17,7 +17,10 @@ if os.environ.get("DST_HASHSEED_FIXED") != "1" and \
 HERE = os.path.dirname(os.path.abspath(__file__))
 VERIF = os.path.dirname(HERE)
 sys.path.insert(0, VERIF)
-sys.path.insert(0, "/repo")
+# the registered commands always check /repo's working tree; DST_REPO is only for trying a seeded change in a
+# scratch worktree while /repo is in use by a long run
+REPO = os.environ.get("DST_REPO", "/repo").rstrip("/")
+sys.path.insert(0, REPO)
 
 import argparse
 import json
@@ -29,7 +32,7 @@ warnings.simplefilter("ignore")
 
 import fibertree  # noqa: E402  (the pristine parent imports the library once)
 
-assert os.path.abspath(fibertree.__file__).startswith("/repo/"), fibertree.__file__
+assert os.path.abspath(fibertree.__file__).startswith(REPO + "/"), fibertree.__file__
 
 from dst import core  # noqa: E402
 from dst.registry import REGISTRY  # noqa: E402
